@@ -53,6 +53,9 @@ structure St where
   c11LastAcct : String := ""
   c11Sizes : Option Nat := none
   c11RoundDisks : List String := []  -- disk view at the end of each round
+  c11Pgc : Nat := 0                  -- complete primary GC cycles / index GC cycles / flushes since the mark
+  c11Igc : Nat := 0
+  c11Flush : Nat := 0
 deriving Repr
 
 def insertStr0 (x : String) : List String → List String
@@ -480,7 +483,7 @@ def stepCore (st : St) (l : Line) : St × List Msg :=
         | [_, p] => (p.toNat?).map fun pos => (pos - 4) / ifs
         | _ => none
       ({ st with c11Marked := true, c11DeadP := pfiles.filter (fun n => n < pcur ∧ !liveP.contains n),
-                 c11FreeI := ifiles.filter (fun n => n < icur ∧ !refI.contains n), c11Round := 0 },
+                 c11FreeI := ifiles.filter (fun n => n < icur ∧ !refI.contains n), c11Round := 0, c11Pgc := 0, c11Igc := 0, c11Flush := 0 },
         [Msg.flag "c11"] ++ (if (pfiles.filter (fun n => n < pcur ∧ !liveP.contains n)).isEmpty then [] else [Msg.flag "c11-dead-primary-files"]) ++
         (if (ifiles.filter (fun n => n < icur ∧ !refI.contains n)).isEmpty then [] else [Msg.flag "c11-unreferenced-index-files"]))
     | "c11round" =>
@@ -489,13 +492,16 @@ def stepCore (st : St) (l : Line) : St × List Msg :=
       let disks := st.c11RoundDisks ++ [st.c11LastDisk]
       let n := disks.length
       let fixedPoint := n ≥ 2 ∧ disks.getD (n - 1) "" = disks.getD (n - 2) "x"
+      -- the verdicts "never released" / "no fixed point" need the cycles to have actually run (a shortened trace proves nothing)
+      let enoughP := st.c11Pgc ≥ 4 ∧ st.c11Flush ≥ 4
+      let enoughI := st.c11Igc ≥ 4 ∧ st.c11Flush ≥ 4
       let pr := (match st.c11PReleasedAt with
         | some r => if r ≤ 1 then [] else [Msg.prop s!"primary files {st.c11DeadP} held no live data after the flush but were released only after {r + 1} GC cycles (bound 2)"]
-        | none => if st.c11DeadP.isEmpty then [] else [Msg.prop s!"primary files {st.c11DeadP} held no live data after the flush and are still not released after {n} GC cycles: [{(resArgs st.c11LastDisk).get "pfiles"}]"]) ++
+        | none => if st.c11DeadP.isEmpty ∨ !enoughP then [] else [Msg.prop s!"primary files {st.c11DeadP} held no live data after the flush and are still not released after {st.c11Pgc} GC cycles: [{(resArgs st.c11LastDisk).get "pfiles"}]"]) ++
         (match st.c11IReleasedAt with
         | some r => if r ≤ 1 then [] else [Msg.prop s!"index files {st.c11FreeI} were unreferenced but were released only after {r + 1} index GC cycles (bound 2)"]
-        | none => if st.c11FreeI.isEmpty then [] else [Msg.prop s!"index files {st.c11FreeI} are unreferenced and still not released after {n} index GC cycles: [{(resArgs st.c11LastDisk).get "ifiles"}]"]) ++
-        (if fixedPoint then [] else [Msg.prop s!"repeated GC cycles on an unchanged store did not reach a fixed point within {n} rounds"])
+        | none => if st.c11FreeI.isEmpty ∨ !enoughI then [] else [Msg.prop s!"index files {st.c11FreeI} are unreferenced and still not released after {st.c11Igc} index GC cycles: [{(resArgs st.c11LastDisk).get "ifiles"}]"]) ++
+        (if fixedPoint ∨ !(enoughP ∧ enoughI ∧ n ≥ 4) then [] else [Msg.prop s!"repeated GC cycles on an unchanged store did not reach a fixed point within {n} rounds"])
       (st, pr ++ (match st.c11PReleasedAt with | some r => [Msg.flag s!"c11-primary-released-after-{r + 1}"] | none => []) ++
                  (match st.c11IReleasedAt with | some r => [Msg.flag s!"c11-index-released-after-{r + 1}"] | none => []))
     | "view" => ({ st with c11LastView := l.res }, cmp "view" (viewState m) l.res)
@@ -506,6 +512,10 @@ def step (st : St) (l : Line) : St × List Msg :=
   let (st', msgs) := stepCore st l
   let st' := if l.op == "pgc" && dirtyBefore then { st' with gcDirty := true }
              else if (l.op == "flush" || l.op == "iter" || l.op == "close" || l.op == "paths") && l.res.startsWith "ok" then { st' with gcDirty := false }
+             else st'
+  let st' := if l.op == "pgc" && l.res.startsWith "ok" && l.args.get "budget" == "-1" then { st' with c11Pgc := st'.c11Pgc + 1 }
+             else if l.op == "igc" && l.res == "ok" && l.args.get "budget" == "-1" then { st' with c11Igc := st'.c11Igc + 1 }
+             else if l.op == "flush" && l.res.startsWith "ok" then { st' with c11Flush := st'.c11Flush + 1 }
              else st'
   if l.op = "acct" ∨ l.op = "view" ∨ l.op = "disk" ∨ l.op = "get" ∨ l.op = "has" ∨ l.op = "size" ∨ l.op = "sizes" then (st', msgs)
   else ({ st' with acctLastOp := l.op, acctLastRes := l.res, acctSince := st'.acctSince ++ [l.op],
